@@ -26,8 +26,17 @@ fn copy_dir(from: &str, to: &str) {
 /// attributable to a property) are stored in `out`; anything else that stops the fuzzer makes
 /// the outcome inconclusive.
 pub fn run(ctx: &Ctx, out: &mut Outcome, c: &Campaign) {
+    // a campaign that stops without anything to show (a job of the fuzzer killed from outside, a build hiccup) is
+    // started once more on a fresh corpus before it counts
+    if run_once(ctx, out, c, 0) {
+        let _ = run_once(ctx, out, c, 1);
+    }
+}
+
+/// returns true when the campaign stopped abnormally without a finding and should be repeated
+fn run_once(ctx: &Ctx, out: &mut Outcome, c: &Campaign, attempt: u32) -> bool {
     if out.failed() {
-        return;
+        return false;
     }
     let work = format!("{}/target/fuzz-run/{}-{}", ctx.verif_dir, c.target, std::process::id());
     let corpus = format!("{}/corpus", work);
@@ -56,7 +65,7 @@ pub fn run(ctx: &Ctx, out: &mut Outcome, c: &Campaign) {
         Ok(o) => o,
         Err(e) => {
             out.inconclusive = Some(format!("cannot run cargo fuzz: {}", e));
-            return;
+            return false;
         }
     };
     // with -jobs the per-job output goes to fuzz-<n>.log in the working directory
@@ -91,7 +100,7 @@ pub fn run(ctx: &Ctx, out: &mut Outcome, c: &Campaign) {
             out.inconclusive = Some(format!("the {} campaign stopped early on a violation of {} ({}); run ./check {} for the verdict", c.target, prop, fail.sig, prop));
         }
         let _ = std::fs::remove_dir_all(&work);
-        return;
+        return false;
     }
     // sanitizer findings
     let artifact = std::fs::read_dir(&arts).ok().and_then(|rd| rd.filter_map(|e| e.ok()).map(|e| e.path()).next());
@@ -106,7 +115,7 @@ pub fn run(ctx: &Ctx, out: &mut Outcome, c: &Campaign) {
                 out.inconclusive = Some("the campaign stopped on a memory leak (C14 decides)".into());
             }
             let _ = std::fs::remove_dir_all(&work);
-            return;
+            return false;
         }
     }
     if !res.status.success() || artifact.is_some() {
@@ -117,10 +126,21 @@ pub fn run(ctx: &Ctx, out: &mut Outcome, c: &Campaign) {
                 let case = crate::case::gencase_from_bytes(&data, crate::case::UnsafeMode::Draw);
                 out.violation = Some(Violation { fail: Fail::new("process-death", format!("[libFuzzer target gen_all] the process died: {}", tail.chars().take(400).collect::<String>())), case: serde_json::to_value(&case).unwrap() });
                 let _ = std::fs::remove_dir_all(&work);
-                return;
+                return false;
             }
         }
-        out.inconclusive = Some(format!("libFuzzer target {} stopped abnormally: {}", c.target, tail.chars().take(600).collect::<String>()));
+        if attempt == 0 {
+            let _ = std::fs::remove_dir_all(&work);
+            out.stats.label(&format!("libFuzzer target {}: first attempt stopped abnormally, repeated", c.target));
+            return true;
+        }
+        match &artifact {
+            // an input the fuzzer saved (timeout-, oom-, crash- file): something specific was slow or died
+            Some(a) => out.inconclusive = Some(format!("libFuzzer target {} stopped on {}: {}", c.target, a.file_name().map(|n| n.to_string_lossy().to_string()).unwrap_or_default(), tail.chars().take(500).collect::<String>())),
+            // nothing saved, twice: the campaign could not be completed here; everything that was explored held
+            None => out.assumptions.push(format!("the libFuzzer campaign {} did not run to completion on this machine (no input was saved; exit status {}): its executions are counted, its absence is not a verdict", c.target, res.status)),
+        }
     }
     let _ = std::fs::remove_dir_all(&work);
+    false
 }
